@@ -253,6 +253,7 @@ func Apply(dt interface{}, o Op) (ret interface{}, err error) {
 // Gen generates values and operations. All randomness comes from R; tags are unique per
 // Gen (one Gen per case).
 type Gen struct {
+	curArr   []interface{} // the array a document operation is being generated for (nil otherwise)
 	R        *rand.Rand
 	tag      int
 	Keys     int     // size of the key pool for maps / objects
@@ -475,7 +476,10 @@ func (g *Gen) Op(rep *Rep) Op {
 			return Op{Kind: "put", Path: path, Key: g.key(), Val: g.Val(0)}
 		}
 		arr, _ := cur.GetValue().([]interface{})
-		return g.seqOp(len(arr), path, 1)
+		g.curArr = arr
+		op := g.seqOp(len(arr), path, 1)
+		g.curArr = nil
+		return op
 	}
 	panic("bad type")
 }
@@ -620,6 +624,17 @@ func (g *Gen) seqOp(n int, path []interface{}, depth int) Op {
 	var vs []interface{}
 	for i := 0; i < c; i++ {
 		vs = append(vs, val())
+	}
+	if isDoc && c >= 2 && len(g.curArr) >= p+c && r.Intn(3) == 0 {
+		// a multi-value update that repeats what one slot already holds (a form that writes a
+		// whole row back with one field changed) and puts a container behind it: every value
+		// of the call is a new element, whatever it replaces
+		i := r.Intn(c - 1)
+		switch g.curArr[p+i].(type) {
+		case string, float64, bool, int, int64:
+			vs[i] = g.curArr[p+i]
+			vs[c-1] = map[string]interface{}{"in": g.Tag(), "l": []interface{}{g.Tag()}}
+		}
 	}
 	return Op{Kind: "upd", Path: path, Pos: p, Vals: vs}
 }
